@@ -20,7 +20,7 @@
    unpartitioned dataset); a dataset emptied by remove_row_groups keeps its partitioning (fix 05c32a7).            *)
 From Coq Require Import NArith ZArith Arith List Bool.
 From Pq Require Import Base.Bytes Dataset.FS Dataset.FsPaths Dataset.Edit
-  Proofs.EditProofs Proofs.EditRename Proofs.EditHistory Dataset.Handle Proofs.HandleProofs.
+  Proofs.EditProofs Proofs.EditRename Proofs.EditHistory Dataset.DsHandle Proofs.DsHandleProofs.
 Import ListNotations.
 
 (* one step: the invariant is kept ... *)
@@ -109,7 +109,7 @@ Example C09_empty_then_append :
 Proof. vm_compute. repeat split. Qed.
 
 
-(* ======================= wave 3: operations through ONE long-lived handle (Dataset/Handle.v) =======================
+(* ======================= wave 3: operations through ONE long-lived handle (Dataset/DsHandle.v) =======================
    A handle computes from ITS OWN copy of the summary.  For EVERY operation list: the history run through one handle
    opened on s equals the history run with a fresh handle per operation (the disk-level model of C09_history), and the
    handle ends up equal to a fresh open of the result - so C09_history / C09_refines hold for handle-level histories. *)
